@@ -3,6 +3,7 @@
 set -u
 patch="$(realpath "$1")"; prop="$2"; shift 2
 cd /verif
+export VERIF_EVIDENCE_DIR=/verif/build/tmp/evidence-mutated
 git -C /repo apply "$patch" || { echo "patch does not apply"; exit 3; }
 trap 'git -C /repo checkout -- . ' EXIT
 ./check "$prop" "$@"
